@@ -142,9 +142,9 @@ def snake(n, spacing, L):
     raise ValueError('box too small for the supplied coordinates')
 
 
-def plan_run(rng, kind):
+def plan_run(rng, kind, force_vsites=False):
     """a system, which residues are supplied how, and the options"""
-    moltypes, molecules = gen_system(rng)
+    moltypes, molecules = gen_system(rng, multi=True if force_vsites else None)
     by = {mt['name']: mt for mt in moltypes}
     inst = [name for name, n in molecules for _ in range(n)]
     case = {'kind': kind, 'moltypes': moltypes, 'molecules': molecules, 'seed': rng.randrange(10 ** 6), 'L': 6.0,
@@ -168,6 +168,13 @@ def plan_run(rng, kind):
     elif kind == 'centres':
         case['resolution'] = 'meta_mol'
         case['nres_supplied'] = rng.randint(1, nres_total)
+        if force_vsites or rng.random() < 0.5:
+            # residue types with a virtual site (built from part of the residue): a residue given as a centre is backmapped
+            # around exactly that centre all the same
+            case['moltypes'] = moltypes = [systems.add_virtual_sites(rng, mt, p=1.0 if force_vsites else 0.6) for mt in moltypes]
+            if force_vsites:
+                case['nres_supplied'] = nres_total
+            by = {mt['name']: mt for mt in moltypes}
     elif kind == 'ignore':
         if len(set(inst)) < 2:
             # the statement is about ignored molecules next to others that are built
@@ -433,6 +440,8 @@ def run(ctx):
     kinds = ['full', 'partial', 'rebuild', 'centres', 'ignore', 'fail']
     cases = [c for _, c in core.corpus_cases('C04')]
     cases += [plan_rewind(rng) for _ in range(ctx.n(2, 16))]
+    # always exercised: every residue given as a centre, residue types with virtual sites
+    cases += [plan_run(rng, 'centres', force_vsites=True) for _ in range(ctx.n(3, 20))]
     # always exercised: an ignored molecule type listed on several [ molecules ] lines with molecules to be built in between
     for _ in range(ctx.n(2, 10)):
         ma = systems.gen_moltype(rng, 'MA', nres=rng.randint(1, 3), multi_atom=rng.random() < 0.5, shape='path', resnames=None)
